@@ -269,7 +269,19 @@ class Env:
     def modify(self, st):
         path = self.register(st["indent"], st["name"])
         if path not in self.nodes:
+            if getattr(self, "untyped_ok", False) and isinstance(st["value"], (int, float)) \
+                    and not isinstance(st["value"], bool):
+                # a file of modifications used as a reference source: the line stands for an
+                # untyped node holding the literal and its unit
+                self.need_unit(st.get("unit"))
+                node = new_node(path, "mod", unit=st.get("unit"))
+                node["value"] = st["value"]
+                node["has_value"] = True
+                self.nodes[path] = node
+                return path
             raise Unspecified("modification of a node that was never defined")
+        if self.nodes[path]["type"] == "mod":
+            raise Unspecified("second assignment to an untyped node of a modification file")
         self._assign(self.nodes[path], st["value"], st.get("unit"), st)
         return path
 
@@ -530,6 +542,13 @@ class Env:
             raise Unspecified("untyped injection into an undefined node")
         if st.get("type") is not None and exists and self.nodes[path]["type"] != st["type"]:
             raise Abort("assignment of another data type", "C14", path)
+        if rtype == "mod":
+            # the literal of a modification file: read as the host's type
+            if isinstance(value, list) or typ not in ("int", "float") or \
+                    (typ == "int" and not isinstance(value, int)):      # '3244.0' is no int text
+                raise Unspecified("untyped literal into a host it does not obviously fit")
+            value = int(value) if typ == "int" else float(value)
+            rtype = typ
         # value crosses type families only int -> float
         if value is not None:
             if typ == rtype or (typ == "float" and rtype == "int"):
@@ -595,6 +614,8 @@ class Env:
                 # which node a property line after such an import belongs to is not settled
                 self.last_new = None
                 continue
+            if rnode["type"] == "mod":
+                raise Unspecified("import of an untyped node of a modification file")
             self.need_unit(rnode["unit"])    # a custom unit of the source, unknown here
             if rnode["condition"] is not None and "cmpnode" in json.dumps(rnode["condition"]):
                 raise Unspecified("import of a node whose condition refers to another node")
@@ -627,6 +648,7 @@ class Env:
             if any(x["k"] == "fn" for x in f["stmts"]):
                 raise Unspecified("remote source calling functions of the including parser")
             sub = Env()
+            sub.untyped_ok = all(x["k"] == "mod" for x in f["stmts"]) and bool(f["stmts"])
             sub.sources = {k: (dict(v, env=v["env"].copy()) if v["kind"] == "dip" else dict(v))
                            for k, v in self.sources.items()}
             # the remote parse already sees the name it is being registered under
